@@ -580,7 +580,13 @@ fn run_case1(case: &Value, out: &mut dyn Write, forced: Option<(i32, i32, f64)>)
             .filter(|e| !e.is_out())
             .map(|e| e.values().iter().map(|x| x.abs() as f64).sum::<f64>())
             .sum();
-        let s = (sum_in / unit * maxf).max(1.0);
+        // the declared demands are reported too (balance.needs): they count for the magnitude of the case
+        let sum_needs: f64 = [&comps.needs.ACS, &comps.needs.CAL, &comps.needs.REF]
+            .iter()
+            .filter_map(|n| n.as_ref())
+            .map(|v| v.iter().map(|x| x.abs() as f64).sum::<f64>())
+            .sum();
+        let s = ((sum_in * maxf).max(sum_needs) / unit).max(1.0);
         preps.push(Prep { run: run.clone(), comps, fac, kexp_v, area_v, lm, s, unit, strip_panic });
     }
     let mut s_case = preps.iter().fold(1.0f64, |m, p| m.max(p.s));
